@@ -171,7 +171,7 @@ def cmd_sensitivity(argv):
                 rows.append((mid, meta.get("property"), "PATCH-DOES-NOT-APPLY", ""))
                 continue
             if meta.get("detected_by") == []:
-                rows.append((mid, meta.get("property"), "CAUGHT(not expected: " + meta.get("not_caught", "")[:80] + ")", "skipped"))
+                rows.append((mid, meta.get("property"), "DOCUMENTED-NOT-CAUGHT: " + meta.get("not_caught", "")[:160], "not run"))
                 continue
             for prop in meta.get("detected_by") or [meta["property"]]:
                 env = dict(os.environ, ACRYO_SRC=scratch)
@@ -192,10 +192,17 @@ def cmd_sensitivity(argv):
         subprocess.run(["git", "-C", "/repo", "worktree", "remove", "--force", scratch], capture_output=True)
         subprocess.run(["rm", "-rf", "/var/tmp/acryo-verif-sens-replays"])
     os.makedirs(os.path.join(runner.VERIF_DIR, "selftest_reports"), exist_ok=True)
-    with open(os.path.join(runner.VERIF_DIR, "selftest_reports", "sensitivity.json"), "w") as f:
-        json.dump([{"id": r[0], "check": r[1], "outcome": r[2], "summary": r[3]} for r in rows], f, indent=1)
-    missed = [r for r in rows if not r[2].startswith("CAUGHT")]
-    print(f"sensitivity: {len(rows) - len(missed)}/{len(rows)} (change, check) pairs caught")
+    rep = os.path.join(runner.VERIF_DIR, "selftest_reports", "sensitivity.json")
+    new_rows = [{"id": r[0], "check": r[1], "outcome": r[2], "summary": r[3]} for r in rows]
+    if a.only and os.path.exists(rep):
+        # a partial run replaces only its own rows of the stored table
+        done = {(r["id"], r["check"]) for r in new_rows}
+        new_rows = sorted([r for r in json.load(open(rep)) if (r["id"], r["check"]) not in done] + new_rows, key=lambda r: (not r["id"].startswith("S"), r["id"], r["check"] or ""))
+    with open(rep, "w") as f:
+        json.dump(new_rows, f, indent=1)
+    ran = [r for r in rows if not r[2].startswith("DOCUMENTED-NOT-CAUGHT")]
+    missed = [r for r in ran if not r[2].startswith("CAUGHT")]
+    print(f"sensitivity: {len(ran) - len(missed)}/{len(ran)} (change, check) pairs caught; {len(rows) - len(ran)} documented as not caught (not run)")
     return 0 if not missed else 1
 
 
